@@ -9,6 +9,8 @@ use crate::util::{self, Out, Rng};
 use crate::Args;
 
 pub mod addr;
+pub mod bufs;
+pub mod composite;
 pub mod config;
 pub mod inotify;
 pub mod life;
@@ -234,6 +236,8 @@ pub fn run(a: &Args) -> i32 {
         "smoke" => smoke::run(a),
         "addr" => run_comp(a, &mut addr::AddrComp),
         "life" => run_comp(a, &mut life::LifeComp),
+        "bufs" => run_comp(a, &mut bufs::BufsComp),
+        "composite" => run_comp(a, &mut composite::CompositeComp),
         "readbuf" => run_comp(a, &mut readbuf::ReadBufComp),
         "config" => run_comp(a, &mut config::ConfigComp),
         "inotify" => run_comp(a, &mut inotify::InotifyComp),
